@@ -80,13 +80,13 @@ func TestC29(t *testing.T) {
 	r.Assume("Forward-level observations are taken from Gate's own log events ('failed to try backend', 'forwarding connection', 'failed to find route' and their backendAddr/route/virtualHost values) through an injected logr sink, cross-checked by loopback listeners' accept counts")
 
 	// ---- 1. function level ----------------------------------------------------------------
-	nFn := r.N(100000, 5000000)
+	nFn := r.N(60000, 5000000)
 	workers := 8
 	var (
 		matched, unmatched, conflicts, groupsChecked, nlHosts atomic.Int64
-		classMu                                              sync.Mutex
-		classes                                              = map[string]int{}
-		features                                             = map[string]int{}
+		classMu                                               sync.Mutex
+		classes                                               = map[string]int{}
+		features                                              = map[string]int{}
 	)
 	var wg sync.WaitGroup
 	for w := 0; w < workers; w++ {
@@ -252,9 +252,9 @@ func distinctInOrder(xs []string) []string {
 
 func forwardLevel(r *lib.Run) {
 	rng := r.Rng("forward")
-	nCand := r.N(1500, 60000)
-	nUnmatched := r.N(300, 10000)
-	nLive := r.N(200, 5000)
+	nCand := r.N(1200, 60000)
+	nUnmatched := r.N(250, 10000)
+	nLive := r.N(150, 5000)
 
 	var accepts atomic.Int64
 	be, err := litefwd.Listen(0, func(c net.Conn, idx int) {
